@@ -40,7 +40,7 @@ from apischema.metadata.keys import (
     SKIP_METADATA,
     VALIDATORS_METADATA,
 )
-from apischema.types import AnyType, NoneType, UndefinedType
+from apischema.types import AnyType, NoneType, Undefined, UndefinedType
 from apischema.typing import get_args, is_annotated
 from apischema.utils import (
     LazyValue,
@@ -185,6 +185,8 @@ class ObjectField:
         return bool(
             self.skip.serialization_if
             or is_union_of(self.type, UndefinedType)
+            # a default Undefined marks the field as absent, whatever its type
+            or (not self.required and self.get_default() is Undefined)
             or (
                 self.default_factory is not None
                 and (self.skip.serialization_default or default)
